@@ -383,7 +383,7 @@ pub fn make_scenario(rng: &mut Rng, o: &ScOpts) -> Scenario {
         let _ = k;
     }
     let limits = o.limits.unwrap_or_else(|| if o.multi_volume { *rng.pick(&[(4usize, 4usize, 2usize), (8, 8, 4), (3, 5, 3), (6, 7, 5)]) } else { *rng.pick(&LIMITS) });
-    Scenario { blocks: img.blocks, vols, limits, id_offset: *rng.pick(&[5000u32, 0, 100, 0xFFFF_FFF0]), desc: descs.join(" | ") }
+    Scenario { blocks: img.blocks, vols, limits, id_offset: *rng.pick(&[5000u32, 0, 100, 0xFFFF_FFF0, 0xFFFF_FFFD]), desc: descs.join(" | ") }
 }
 
 // ------------------------------------------------------------------------------------------------
